@@ -102,3 +102,53 @@ class ServerSim:
                 tuple((k, v) for k, v in sorted(s.__dict__.items())
                       if k not in ("_buffer", "_toggle", "_index", "_subindex", "last_received_error", "od", "_node",
                                    "network", "rx_cobid", "tx_cobid") and isinstance(v, (int, str, bool, type(None)))))
+
+
+class RefLink:
+    """Real SdoClient (RemoteNode on its own Network) <-> reference server object, with optional
+    per-frame filters in both directions.  Responses are queued and delivered when the client's
+    send returns (inline) – the client reads them from its (virtual) response queue."""
+
+    def __init__(self, server, od_entries=(), req_filter=None, resp_filter=None, idle=None, node_id=5):
+        import can
+        import canopen
+        self._can = can
+        simenv.new_world()
+        self.server = server
+        self.req_filter = req_filter      # f(frame) -> bool (deliver to server?)
+        self.resp_filter = resp_filter    # f(frame) -> list of frames for the client
+        self.client_frames = []
+        self.server_frames = []
+        self.net = canopen.Network()
+        self.net.bus = self
+        self.channel_info = "reflink"
+        self.tx = 0x580 + node_id
+        self.rx = 0x600 + node_id
+        self.node = self.net.add_node(node_id, build_od(list(od_entries)))
+        if idle is not None:
+            simenv.W.idle_hooks.append(lambda: idle(self))
+
+    def __bool__(self):
+        return True
+
+    def send(self, msg, timeout=None):
+        simenv.W.now += 0.00025
+        f = bytes(msg.data)
+        if msg.arbitration_id != self.rx:
+            return
+        self.client_frames.append(f)
+        if self.req_filter is not None and not self.req_filter(f):
+            return
+        self.from_server(self.server.on_frame(self.rx, f))
+
+    def from_server(self, replies):
+        for cid, r in replies or ():
+            r = bytes(r)
+            self.server_frames.append(r)
+            outs = [r] if self.resp_filter is None else self.resp_filter(r)
+            for o in outs:
+                self.net.listeners[0].on_message_received(
+                    self._can.Message(arbitration_id=cid, data=bytes(o), is_extended_id=False, timestamp=simenv.W.now))
+
+    def shutdown(self):
+        pass
